@@ -53,6 +53,26 @@ func genMergePatchFor(r *rand.Rand, p *gen.Profile, doc *jr.Value) string {
 	return "{" + strings.Join(parts, ",") + "}"
 }
 
+// deepWrap nests bottom beneath d levels of {"a": ... } (one sibling member every 97 levels, so that the
+// levels are not all alike).
+func deepWrap(d int, bottom string) string {
+	var sb strings.Builder
+	for i := 0; i < d; i++ {
+		if i%97 == 96 {
+			sb.WriteString(`{"s":1,"a":`)
+		} else {
+			sb.WriteString(`{"a":`)
+		}
+	}
+	sb.WriteString(bottom)
+	sb.WriteString(strings.Repeat("}", d))
+	return sb.String()
+}
+
+// deepDepths: around every recursion bound somebody might put into a recursive walk (and the quadratic cost of
+// lazy re-parsing keeps 8000 levels within a few seconds).
+var deepDepths = []int{3, 31, 32, 33, 63, 64, 65, 127, 128, 129, 150, 199, 200, 201, 202, 255, 256, 257, 500, 511, 512, 513, 999, 1000, 1001, 1023, 1024, 1025, 2000, 2500, 4095, 4096, 4097, 4999, 5000, 5001, 5002, 8000}
+
 // editObject returns a variant of object a obtained by k random edits at
 // random depths (for CreateMergePatch: small, deep differences).
 func editObject(r *rand.Rand, p *gen.Profile, a *jr.Value, edits int) *jr.Value {
